@@ -70,7 +70,7 @@ func vecBatch(rng *rand.Rand, class string, prefix string) *model.Batch {
 
 // C14 — vector search: true scores, live docs, exact top-k when exact.
 func c14(c *Ctx) {
-	n := c.N(200, 3000)
+	n := c.N(800, 10000)
 	tallEvery := c.N(50, 60)
 	for i := 0; i < n; i++ {
 		if !c.Mine(i) {
@@ -502,7 +502,7 @@ func c16stress(c *Ctx) {
 var c19ops = []string{"IndexFactory", "SetDirectMap", "Train", "AddWithIDs", "WriteIndexIntoBuffer", "ReadIndexFromBuffer", "ReconstructBatch"}
 
 func c19(c *Ctx) {
-	n := c.N(24, 200)
+	n := c.N(60, 600)
 	for i := 0; i < n; i++ {
 		if !c.Mine(i) {
 			continue
